@@ -11,6 +11,7 @@ RAW = os.path.join(BUILD, "cov-raw")
 
 def main():
     env = dict(ENV); env["RUSTFLAGS"] = "-C instrument-coverage"; env["CARGO_TARGET_DIR"] = COV_TARGET
+    env["LLVM_PROFILE_FILE"] = os.path.join(BUILD, "cov-build", "b-%p-%m.profraw")   # build scripts are instrumented too
     r = subprocess.run(["cargo", "+nightly", "build", "--release", "--offline"], cwd=HARNESS_DIR, env=env)
     if r.returncode: return 1
     binp = os.path.join(COV_TARGET, "release", "rml-verif-harness")
